@@ -27,7 +27,7 @@ RULE = ('chain = per level one of {no Manifest, plain, compressed(gz/bz2/lzma/xz
         'distinct (chain, start, flags).')
 ANCHORS = ['find_top_level:find_top_level_manifest']
 REQUIRED = ['find_top_level:find_top_level_manifest', 'contract:find_top',
-            'xdev:cases']
+            'xdev:cases', 'cli_multi_runs', 'symlinked_starts']
 ASSUMPTIONS = ['no Manifest file exists in the ancestors of the scratch directory '
                '(checked at run time: the model walks up to / as well)',
                'start directories reached through a symlink are not generated']
@@ -68,6 +68,7 @@ def units(tier, seed):
         u.append({'k': 'rand', 'i': i, 'n': 25})
     for i in range(12 if tier == 'quick' else 120):
         u.append({'k': 'xdev', 'i': i})
+    u.append({'k': 'cli-multi'})
     return u
 
 
@@ -114,6 +115,11 @@ def build_chain(root, spec):
             continue
         below = names[li:spec.get('ign_depth', len(names))]
         ents = [{'tag': 'DATA', 'path': 'x', 'size': 0, 'sums': {}}]
+        if (li + len(names)) % 2:
+            # other entry kinds must not matter to discovery: every other level
+            # carries a TIMESTAMP and a DIST entry (a tree nested in another one)
+            ents.insert(0, {'tag': 'TIMESTAMP', 'ts': '2020-01-0%dT00:00:00Z' % (li + 1)})
+            ents.append({'tag': 'DIST', 'path': 'd.tar', 'size': 1, 'sums': {}})
         ip = ignore_path(ign, below, names[li - 1] if li >= 1 else None)
         if ip:
             ents.append({'tag': 'IGNORE', 'path': ip})
@@ -344,12 +350,72 @@ def xdev_child(argv):
     sys.exit(0)
 
 
+def run_cli_multi(u, ctx):
+    """`gemato verify P1 P2 ...`: discovery happens for every path on its own.  A
+    nested tree that the outer Manifest IGNOREs (and that has its own Manifest) is a
+    different tree, whatever was verified before it on the same command line."""
+    import logging
+    from gemato import cli as gcli
+    logging.getLogger().setLevel(logging.CRITICAL)
+    orders = [['repo', 'repo/local'], ['repo/local', 'repo'],
+              ['repo/other', 'repo/local'], ['repo', 'repo/local/deep', 'repo/other'],
+              ['repo/local', 'repo/local/deep']]
+    with common.Scratch('vf-c15c-') as d:
+        repo = os.path.join(d, 'repo')
+        for sub in ('other', 'local/deep'):
+            os.makedirs(os.path.join(repo, sub))
+        files = {'a': b'a', 'other/b': b'bb', 'local/c': b'ccc', 'local/deep/e': b'e'}
+        for rel, data in files.items():
+            with open(os.path.join(repo, rel), 'wb') as f:
+                f.write(data)
+        with open(os.path.join(repo, 'Manifest'), 'w') as f:
+            f.write(mtext.render([mtext.file_entry('DATA', 'a', b'a', ['SHA256']),
+                                  mtext.file_entry('DATA', 'other/b', b'bb', ['SHA256']),
+                                  {'tag': 'IGNORE', 'path': 'local'}]))
+        with open(os.path.join(repo, 'local', 'Manifest'), 'w') as f:
+            f.write(mtext.render([mtext.file_entry('DATA', 'c', b'ccc', ['SHA256']),
+                                  mtext.file_entry('DATA', 'deep/e', b'e', ['SHA256'])]))
+        for order in orders:
+            case = {'kind': 'cli-multi', 'order': order}
+            ctx.case(sig=('cli-multi', tuple(order)), case=case, klass='cli-multi')
+            ctx.count('cli_multi_runs')
+            try:
+                rc = gcli.main(['gemato', 'verify', '-P'] +
+                               [os.path.join(d, p) for p in order])
+            except SystemExit as exc:
+                rc = exc.code
+            except Exception as exc:
+                rc = exc
+            if rc != 0:
+                ctx.violation('cli-multi-path-discovery', '`gemato verify %s` -> %r on '
+                              'two valid trees (repo IGNOREs local, local has its own '
+                              'Manifest)' % (' '.join(order), rc), case)
+        # ... and a mismatch in the nested tree is found whatever comes first
+        with open(os.path.join(repo, 'local', 'c'), 'wb') as f:
+            f.write(b'CHANGED')
+        for order in orders[:3]:
+            case = {'kind': 'cli-multi', 'order': order, 'broken': True}
+            ctx.count('cli_multi_runs')
+            try:
+                rc = gcli.main(['gemato', 'verify', '-P'] +
+                               [os.path.join(d, p) for p in order])
+            except SystemExit as exc:
+                rc = exc.code
+            except Exception as exc:
+                rc = exc
+            if rc == 0:
+                ctx.violation('cli-multi-path-discovery', '`gemato verify %s` exits 0 '
+                              'although local/c was changed' % ' '.join(order), case)
+
+
 def run_unit(u, ctx):
     {'enum': run_enum, 'rand': run_rand, 'xdev': run_xdev,
-     'enum2': run_enum2}[u['k']](u, ctx)
+     'enum2': run_enum2, 'cli-multi': run_cli_multi}[u['k']](u, ctx)
 
 
 def replay(case, ctx):
+    if case.get('kind') == 'cli-multi':
+        return run_cli_multi({}, ctx)
     spec = case['spec']
     if 'mount_at' in spec:
         run_xdev_spec = None
